@@ -31,6 +31,72 @@ pub fn garbage_kinds(ctx: &Ctx) -> Vec<(String, String)> {
     ]
 }
 
+/// Seeded garbage for `meta.json`: text in several scripts (multi-byte characters at every byte
+/// offset), JSON of the wrong shape, very long and deeply nested values, byte-order marks, bytes that
+/// are not UTF-8 at all.
+/// Returns the content and whether it still *reads as current metadata* (re-spaced, or with an extra
+/// key): such content may only stand over a complete index - current metadata over a foreign index
+/// is not a state any listed cause produces.
+pub fn random_garbage(ctx: &Ctx, rng: &mut Rng) -> (MetaSpec, bool) {
+    let scripts: [&str; 6] = ["é", "日本語", "ß→∞", "🦀", "Ω⋅m²", "абв"];
+    fn ascii(rng: &mut Rng, lo: usize, hi: usize) -> String {
+        let n = rng.range(lo, hi);
+        (0..n).map(|_| char::from(0x20 + rng.below(0x5f) as u8)).collect()
+    }
+    let mixed = |rng: &mut Rng, lo: usize, hi: usize| -> String {
+        let n = rng.range(lo, hi);
+        let mut t = String::new();
+        while t.len() < n {
+            if rng.chance(1, 3) {
+                t.push_str(scripts[rng.below(scripts.len())]);
+            } else {
+                t.push(char::from(0x20 + rng.below(0x5f) as u8));
+            }
+        }
+        t
+    };
+    let v = serde_json::to_string(&ctx.reference.version).unwrap();
+    let h = serde_json::to_string(&ctx.reference.hash).unwrap();
+    let meta = &ctx.reference.meta_text;
+    let kind = rng.below(12);
+    let reads_as_current = kind == 8 || kind == 9;
+    let text = match kind {
+        0 => ascii(rng, 1, 300),
+        1 | 2 => {
+            let lead = ascii(rng, 0, 70);
+            format!("{lead}{}", mixed(rng, 1, 200))
+        }
+        3 => format!("{{\"version\":{},\"database_hash\":{h}}}", serde_json::to_string(&mixed(rng, 1, 120)).unwrap()),
+        4 => format!("{{\"version\":{v},\"database_hash\":{}}}", serde_json::to_string(&mixed(rng, 1, 120)).unwrap()),
+        5 => format!("{}{meta}", '\u{feff}'),
+        6 => {
+            let open = rng.range(1, 300);
+            let close = rng.range(0, 300);
+            format!("{}{}", "[".repeat(open), "]".repeat(close))
+        }
+        7 => {
+            let digits = rng.range(1, 400);
+            format!("{{\"version\":{},\"database_hash\":{}}}", "9".repeat(digits), rng.range(0, 9))
+        }
+        8 => meta.replace(':', ": \r\n\t ").replace(',', " ,\n"),
+        9 => {
+            let key = mixed(rng, 1, 40).replace(['"', '\\'], "");
+            format!("{{\"version\":{v},\"database_hash\":{h},\"{key}\":{}}}", rng.range(0, 99))
+        }
+        10 => {
+            let cut = rng.below(meta.len());
+            format!("{}{}", &meta[..cut], mixed(rng, 1, 90))
+        }
+        _ => {
+            // not UTF-8 at all
+            let n = rng.range(1, 200);
+            let hex: String = (0..n).map(|_| format!("{:02x}", if rng.chance(1, 2) { 0x80 + rng.below(0x80) } else { rng.below(0x100) })).collect();
+            return (MetaSpec::Hex { hex }, false);
+        }
+    };
+    (MetaSpec::Text { text }, reads_as_current)
+}
+
 /// The listed prior states. `thorough` = every torn length and every garbage kind over both index
 /// variants; otherwise one representative per class.
 pub fn c15_states(ctx: &Ctx, thorough: bool) -> Vec<(String, StateSpec)> {
@@ -1032,7 +1098,7 @@ pub fn c19_query(pool: &PhrasePool, rng: &mut Rng) -> String {
             _ => format!("{}e{}", rng.range(1, 99), rng.range(0, 40)),
         }
     };
-    let unit = |rng: &mut Rng| -> &'static str { *rng.pick(&["m", "km", "s", "kg", "N", "J", "W", "ft", "mi", "l", "h", "min", "btu", "Pa", "g", "m/s", "m^2", "km/h", "kg*m", "m/s^2"]) };
+    let unit = |rng: &mut Rng| -> &'static str { *rng.pick(&["m", "km", "s", "kg", "N", "J", "W", "ft", "mi", "l", "h", "min", "btu", "Pa", "g", "m/s", "m^2", "km/h", "kg*m", "m/s^2", "celsius", "fahrenheit", "K", "°C", "°F", "Ω", "μm", "%"]) };
     let plural_unit = |rng: &mut Rng| -> &'static str { *rng.pick(&["ton", "acre", "btu", "decade", "century", "millenium", "cable", "link", "perch", "rood"]) };
     let small = |rng: &mut Rng| -> String {
         match rng.below(9) {
@@ -1041,13 +1107,20 @@ pub fn c19_query(pool: &PhrasePool, rng: &mut Rng) -> String {
             2 => "1m + 1s".to_string(),
             3 => format!("{} / 0", rng.range(1, 9)),
             4 => format!("{}{}", rng.range(1, 99), *rng.pick(&["m", "km", "s", "kg", "ton", "acre"])),
-            5 => phrase(pool, rng),
+            5 => {
+                if rng.chance(1, 4) {
+                    // phrases the search engine's own query parser rejects: an evaluation error like any other
+                    rng.pick(&["NOT", "pi OR", "speed of light OR", "AND mass", "mass AND", "OR"]).to_string()
+                } else {
+                    phrase(pool, rng)
+                }
+            }
             6 => format!("{}m + {}km", rng.range(1, 9), rng.range(1, 9)),
             7 => format!("{} * {}", rng.range(1, 99), rng.range(1, 99)),
             _ => format!("1 / {}", rng.range(2, 13)),
         }
     };
-    match rng.below(31) {
+    match rng.below(34) {
         20 | 21 => format!("{} {}", *rng.pick(&["1", "0.5", "0.25", "0.125", "0.2", "2", "1.0", "10", "0.1", "1.5", "0.01", "3"]), plural_unit(rng)),
         22 => format!("{} {} to {}", *rng.pick(&["1", "10", "100", "5", "0.5"]), plural_unit(rng), plural_unit(rng)),
         23 => format!("({})({})", small(rng), small(rng)),
@@ -1069,6 +1142,7 @@ pub fn c19_query(pool: &PhrasePool, rng: &mut Rng) -> String {
                     6 => format!("{}foo", rng.range(1, 9)),
                     7 => format!("2^{}", rng.range(30, 80)),
                     8 => format!("{}/{}decades", rng.range(1, 20), rng.range(2, 9)),
+                    9 if rng.chance(1, 2) => rng.pick(&["NOT", "OR", "AND", "pi", "c"]).to_string(),
                     _ => format!("{}*{}", rng.range(1, 99), rng.range(1, 99)),
                 }
             };
@@ -1085,6 +1159,9 @@ pub fn c19_query(pool: &PhrasePool, rng: &mut Rng) -> String {
             }
             t
         }
+        31 => format!("{}%({}){}%", rng.range(1, 99), small(rng), rng.range(1, 99)),
+        32 => format!("round({}){}%{}%", small(rng), rng.range(1, 99), rng.range(1, 99)),
+        33 => format!("{} {} to {}", rng.range(0, 170) as i64 - 50, *rng.pick(&["celsius", "fahrenheit", "K"]), *rng.pick(&["celsius", "fahrenheit", "K"])),
         0 => int(rng),
         1 | 29 | 30 => dec(rng),
         2 => format!("{} / {}", int(rng), rng.range(1, 999)),
